@@ -36,6 +36,19 @@ impl Ctx {
     }
 }
 
+/// A panic that escapes a check function is a defect of the harness (panics of the code under test are caught
+/// where it is called): the run is inconclusive, never a violation.
+fn guarded<R>(prop: &str, f: impl FnOnce() -> R) -> R {
+    match std::panic::catch_unwind(std::panic::AssertUnwindSafe(f)) {
+        Ok(r) => r,
+        Err(p) => {
+            let msg = p.downcast_ref::<&str>().map(|s| s.to_string()).or_else(|| p.downcast_ref::<String>().cloned()).unwrap_or_default();
+            println!("INCONCLUSIVE property={} the harness itself panicked outside a guarded call: {}", prop, msg);
+            std::process::exit(2);
+        }
+    }
+}
+
 pub struct Outcome {
     pub stats: Stats,
     pub violations: Vec<(Violation, std::path::PathBuf)>,
@@ -103,6 +116,7 @@ where
                 .spawn_scoped(scope, move || {
                     let stats = RefCell::new(Stats::default());
                     let failed = Cell::new(false);
+                    let first_failure: RefCell<Option<(T, Violation)>> = RefCell::new(None);
                     let config = Config {
                         cases,
                         failure_persistence: None,
@@ -118,7 +132,7 @@ where
                         if failed.get() {
                             st.frozen = true;
                         }
-                        let r = check(&v, &mut st, shard);
+                        let r = guarded(&ctx.property, || check(&v, &mut st, shard));
                         watch.started[shard].store(0, Ordering::Relaxed);
                         match r {
                             Ok(()) => Ok(()),
@@ -130,6 +144,9 @@ where
                                         }
                                         return Ok(());
                                     }
+                                }
+                                if !failed.get() {
+                                    *first_failure.borrow_mut() = Some((v.clone(), viol.clone()));
                                 }
                                 failed.set(true);
                                 Err(TestCaseError::fail(viol.signature))
@@ -144,12 +161,19 @@ where
                         Err(TestError::Fail(_, v)) => {
                             // recompute the violation on the shrunk value
                             let mut tmp = Stats { frozen: true, ..Stats::default() };
-                            match check(&v, &mut tmp, shard) {
+                            match guarded(&ctx.property, || check(&v, &mut tmp, shard)) {
                                 Err(viol) => Some((v, viol)),
-                                Ok(()) => Some((
-                                    v,
-                                    Violation::new("nonreproducible", "shrunk case passed on re-run"),
-                                )),
+                                Ok(()) => {
+                                    // the shrunk case passes when run again in this process (state carried between
+                                    // calls of the code under test?): report the first failing case as it was seen
+                                    match first_failure.borrow_mut().take() {
+                                        Some((v0, mut viol0)) => {
+                                            viol0.detail = format!("{} [seen once in this process; the shrunk case passed when re-run in the same process, so the unshrunk case is kept - replay it in a fresh process]", viol0.detail);
+                                            Some((v0, viol0))
+                                        }
+                                        None => Some((v, Violation::new("nonreproducible", "shrunk case passed on re-run"))),
+                                    }
+                                }
                             }
                         }
                         Err(TestError::Abort(r)) => {
@@ -211,7 +235,7 @@ where
                         let mut st = Stats::default();
                         let mut fails = vec![];
                         for it in chunk.iter() {
-                            match f(it, &mut st, shard) {
+                            match guarded(&ctx.property, || f(it, &mut st, shard)) {
                                 Ok(()) => {}
                                 Err(v) => {
                                     if !ctx.strict && ctx.known.matches(&ctx.property, &v.signature).is_some() {
